@@ -17,7 +17,9 @@ void *_Znwm(unsigned long n) { void *p = calloc(1, n); __CPROVER_assume(p != 0);
 void *_Znam(unsigned long n) { void *p = calloc(1, n); __CPROVER_assume(p != 0); return p; }
 void __verif_bound_exceeded(void) { __CPROVER_assume(0); }
 double nondet_double(void); int nondet_int(void);
+#ifndef HARNESS_STRTOD
 double __verif_strtod(const char *s, int n, int *ok) { (void)s; (void)n; *ok = nondet_int() & 1; return nondet_double(); }
+#endif
 int __verif_fmt_double(char *o, int cap, double v, int prec) { (void)o; (void)cap; (void)v; (void)prec; return 0; }
 void __cxa_pure_virtual(void) { __CPROVER_assert(0, "pure virtual function called"); __CPROVER_assume(0); }
 #endif
